@@ -115,6 +115,7 @@ type gPlan struct {
 	Cases   []gCase  `json:"cases"`
 	Random  *gRandom `json:"random"`
 	Workers int      `json:"workers"`
+	Only    []string `json:"only"` // when set: run only the cases with these ids
 }
 
 // ---------------------------------------------------------------------------------------------
@@ -961,7 +962,11 @@ func (g *gInst) runOne(ri int, run *gRun, pre []gID) (*gRec, []gID, error) {
 		}
 	}
 	cv.ln = pick(run.Ln, func() string { return genText(r, true) })
-	cv.ru = pick(run.Ru, func() string { return genText(r, true) })
+	if run.Ru == "=ln" {
+		cv.ru = cv.ln // the client declares the login name itself (the common case in practice)
+	} else {
+		cv.ru = pick(run.Ru, func() string { return genText(r, true) })
+	}
 	cv.rh = pick(run.Rh, func() string { return genText(r, false) })
 	cv.ip = pick(run.IP, func() string { return genIP(r) })
 	cv.tid = pick(run.Tid, func() string { return genText(r, false) })
@@ -1431,6 +1436,10 @@ func randomCase(n int, maxRuns int) gCase {
 			run.Sgen = []string{"CSR", "Conf", "Params", "empty"}[r.Intn(4)]
 		}
 		run.PlainCA = r.Intn(10) == 0
+		if r.Intn(8) == 0 {
+			run.Ru = "=ln"
+			run.Dir.Rp, run.Dir.Rb = run.Dir.Lp, run.Dir.Lb
+		}
 		// faults: none / one / two
 		nf := []int{0, 0, 0, 1, 1, 2}[r.Intn(6)]
 		for j := 0; j < nf; j++ {
@@ -1482,6 +1491,18 @@ func TestVerifGensign(t *testing.T) {
 			cases = append(cases, randomCase(i, plan.Random.MaxRuns))
 		}
 	}
+	if len(plan.Only) > 0 {
+		var sel []gCase
+		for _, c := range cases {
+			for _, id := range plan.Only {
+				if c.ID == id {
+					sel = append(sel, c)
+				}
+			}
+		}
+		cases = sel
+		nA = 0
+	}
 	tmpRoot, err := os.MkdirTemp("", "verif_gensign")
 	if err != nil {
 		t.Fatal(err)
@@ -1490,6 +1511,21 @@ func TestVerifGensign(t *testing.T) {
 	workers := plan.Workers
 	if workers <= 0 {
 		workers = 4
+	}
+	// progress file: which cases were in flight if the process dies (C04: "the process keeps running")
+	var prog *os.File
+	if pp := os.Getenv("VERIF_PROGRESS"); pp != "" {
+		prog, _ = os.Create(pp)
+	}
+	var progMu sync.Mutex
+	mark := func(what string, i int) {
+		if prog == nil {
+			return
+		}
+		b, _ := json.Marshal(map[string]interface{}{"ev": what, "i": i, "id": cases[i].ID})
+		progMu.Lock()
+		prog.Write(append(b, '\n'))
+		progMu.Unlock()
 	}
 	var (
 		wg    sync.WaitGroup
@@ -1512,7 +1548,9 @@ func TestVerifGensign(t *testing.T) {
 				if i >= len(cases) {
 					return
 				}
+				mark("start", i)
 				recs, err := runCase(&cases[i], tmpRoot)
+				mark("done", i)
 				mu.Lock()
 				if err != nil {
 					errs = append(errs, err.Error())
